@@ -161,7 +161,7 @@ UNITS += [
 
 META = {"not_covered": [
     "the statement's quantifier: histories through a cached and an uncached handle, stale/truncated/foreign files planted in the cache directory -- only the single-call building blocks are decided here",
-    "Cache itself (file-system code): tmp+rename writes, read_full / read_partial of cached files, list_with_size (directory walk), remove -- stubs with map semantics; remove_not_in_list IS a unit",
+    "Cache itself (file-system code): tmp+rename writes, list_with_size (directory walk), remove -- stubs with map semantics; read_full / read_partial ARE units over the std::io model (File::open/seek/read_exact assumed), remove_not_in_list IS a unit",
     "a cached file with foreign bytes of the right size under a valid id (outside the content-addressing hypothesis; nothing re-hashes cached files)",
     "reads of a file that only the cache still has (between two listings): the cached handle answers, an uncached one fails",
     "pass-through methods location / needs_warm_up / warm_up / warmup_path / create (one delegating call each)",
